@@ -693,8 +693,10 @@ package parse
 //@   loop 0
 //@     invariant forall(k, 0, rangeindex + 1, against[k] != tocheck)
 //@ func allSpace
-//@   props C05
+//@   props C05 C15
 //@   pure
+//@   at call unicode.IsSpace#* forbid[between-switch-and-case-only-the-four-whitespace-characters-are-skipped;C15] false
+//@   at call parse.isSpaceEOL#0 assert[every-character-is-held-against-the-four-character-class;C15] arg0 == ch
 //@ func inStringSlice
 //@   props C05
 //@   pure
